@@ -40,3 +40,21 @@ Proof. repeat constructor; cbn; intuition discriminate. Qed.
 Example cve_2012_2459_rejected :
   extract toy_hash 2098360 (mkMsg [] 4 [[1]; [2]; [1]; [2]] [127]) = Err 5.
 Proof. vm_compute. reflexivity. Qed.
+
+(* why [extract_build] needs distinct nodes: a block whose two transactions have the same id builds a
+   proof whose root has equal children, which extraction rejects (the CVE-2012-2459 rule cannot tell
+   this from the attack) *)
+Example duplicate_leaves_rejected :
+  exists leaves txnset m idx,
+    leaves <> [] /\
+    mb_new_with_txnset toy_hash [] leaves txnset = Ok (m, idx) /\
+    extract toy_hash 2098360 m = Err 5.
+Proof.
+  exists [[1]; [1]], [[1]]. eexists. eexists. split; [discriminate|]. split; vm_compute; reflexivity.
+Qed.
+
+Example msg7_is_height : is_height 7 3.
+Proof.
+  split; [vm_compute; discriminate|]. intros h' Hh'.
+  destruct h' as [|[|[|h']]]; try lia; vm_compute; reflexivity.
+Qed.
